@@ -740,7 +740,57 @@ func genC08(w *bufio.Writer, rng *hx.Rng, tier string) {
 		}
 		return evs
 	}
-	// small scope first: every (workers, count) with few events, no timeout, no stop
+	// gate-free Stop stress first (also what the widened search of ./check reaches first)
+	nstress, rounds := 6, 150
+	ntrickle := 5
+	if tier == "thorough" {
+		nstress, rounds, ntrickle = 40, 300, 30
+	}
+	for i := 0; i < nstress; i++ {
+		fmt.Fprintf(w, "c08.stopstress %d %d %d %d %d\n", rounds, 4+i%5, 2+i%3, 30, rng.U64())
+	}
+	// slow trickles: gaps a fraction of the flush timeout, limits far above what arrives; zero-size and
+	// child events (what Spawn produces) first, last, mixed
+	for i := 0; i < ntrickle; i++ {
+		timeoutMs := []int{150, 120, 200}[i%3]
+		gapMs := timeoutMs / []int{4, 3, 5}[(i/3)%3]
+		n := 900/gapMs + 2
+		if i >= 5 {
+			n = rng.Range(8, 1100/gapMs)
+		}
+		nbytes := 0
+		if i%2 == 1 {
+			nbytes = 1000000
+		}
+		fmt.Fprintf(w, "c08.trickle %d %d %d %d %d %d", 1+i%3, timeoutMs, gapMs, 1000, nbytes, n)
+		for j := 0; j < n; j++ {
+			size, kind := 0, 0
+			switch i % 5 {
+			case 0: // all zero-size children
+				size, kind = 0, 1
+			case 1: // zero-size first, sized later
+				if j >= n/2 {
+					size = rng.Range(1, 40)
+				}
+			case 2: // sized first, zero-size later
+				if j < 2 {
+					size = rng.Range(1, 40)
+				} else {
+					kind = 1
+				}
+			case 3: // all sized regular
+				size = rng.Range(1, 40)
+			default: // mixed
+				if rng.Chance(1, 2) {
+					size = rng.Range(1, 40)
+				}
+				kind = rng.Intn(2)
+			}
+			fmt.Fprintf(w, " %d %d", size, kind)
+		}
+		w.WriteByte('\n')
+	}
+	// small scope: every (workers, count) with few events, no timeout, no stop
 	for i := 0; i < nsmall; i++ {
 		workers := 1 + i%4
 		count := 1 + (i/4)%5
